@@ -94,6 +94,8 @@ CONFIG = dict(
         "C16_direct_client_cannot_spoof", "C16_no_trusted_list", "C16_endpoints_gated", "C16_direct_client_gate",
         "C16_facts", "C16_contains_is_prefix_match", "C16_statement_on_bits", "C16_default_lists_wf",
         "C16_default_config_public_peer_refused", "C16_config", "C16_parse_refuses_iff",
+        "C16_host_entry_exact", "C16_config_as_written", "C16_config_refused_as_written", "C16_reload_as_written",
+        "C16_statement_as_written",
     ]],
     generated=["RealIP"],
     harness=dict(pkg="signaling", test="TestVerifC16"),
